@@ -43,7 +43,7 @@ def count_tables(shape_list):
 
 # ---------------------------------------------------------------- labelings
 
-ASC, DESC, WEIRD, CHAR = 'asc', 'desc', 'weird', 'char'
+ASC, DESC, WEIRD, CHAR, SPACE = 'asc', 'desc', 'weird', 'char', 'space'
 
 
 def labels(n, m, labeling=ASC):
@@ -63,6 +63,10 @@ def labels(n, m, labeling=ASC):
         if n > 13 or m > 13:
             raise ValueError('char labeling is for small tables')
         return (tuple('abcdefghijklm'[:n]), tuple('nopqrstuvwxyz'[:m]))
+    if labeling == SPACE:   # labels that differ only in leading / trailing blanks
+        pads = [(a, b) for t in range(8) for a in range(t + 1) for b in [t - a]]
+        return (tuple(' ' * a + 'o' + ' ' * b for a, b in pads[:n]),
+                tuple(' ' * a + 'p' + ' ' * b for a, b in pads[:m]))
     if labeling == WEIRD:   # blanks, quotes and non-ASCII inside labels (C20, C10 strings)
         return (tuple(f'o {i}"q' for i in range(n)),
                 tuple(f"p'{j} \u00e4" for j in range(m)))
